@@ -48,7 +48,7 @@ pub fn run_scenario(sc: &Scenario, sliced: bool, check: bool, mines_first: bool,
     let mut pre: Option<Snapshot> = None;
     let mut rounds_this_block = 0usize;
     let mut budgets: Vec<Option<u16>> = vec![];
-    let mut beat = |hw: &mut HbWorld, budget: Option<u16>, i: usize, out: &mut Outcome, res: &mut RunResult, pre: &mut Option<Snapshot>, rounds_this_block: &mut usize| -> bool {
+    let beat = |hw: &mut HbWorld, budget: Option<u16>, i: usize, out: &mut Outcome, res: &mut RunResult, pre: &mut Option<Snapshot>, rounds_this_block: &mut usize| -> bool {
         let was_ingesting = sut::is_ingesting();
         if !was_ingesting && check {
             *pre = Some(snapshot::take(&hw.w));
